@@ -1,4 +1,5 @@
 import ZI.Registry
+import ZI.LookupTwin
 import ZI.Graph2
 /-! Driver for the adapter-registry layer (C04, C06, C07, C08, C09) over a specification graph that only grows. -/
 namespace Drv.Registry
@@ -30,6 +31,22 @@ def fresh (verifying : Bool) : St :=
 def retNone (v : Val) : Bool := v.ident % 4 == 0
 def badName (n : String) : Bool := n.startsWith "#"
 
+/-- the state the twin models of the lookup entry points (`ZI.LookupTwin`: the C composition and the Python composition, proved
+equal) see: the caches and the uncached answers of registry `r` after its generation check -/
+def twinState (w : World) (r : Nat) : ZI.LookupTwin.St :=
+  let w' := verify w r
+  let x := w'.reg r
+  { cache := fun p n k => (AList.get? x.cache (p, n, k)).map (·.map (·.ident)),
+    uncached := fun k p n => (uncachedLookup w' r k p n).map (·.ident),
+    factoryNone := fun v => v % 4 == 0, stale := false, verifying := false }
+def twinName (n : String) : ZI.LookupTwin.Name := if badName n then .other (n != "#0" && n != "#N" && n != "#F" && n != "#b" && n != "#t" && n != "#f" && n != "#fs") else .str n
+def shwOut : ZI.LookupTwin.Out → String
+  | .valueError => "err ValueError" | .default => "default" | .none => "N" | .val v => toString v | .obj => "res"
+/-- lock step: both twin compositions must say what the registry model says (`TWINDIFF` breaks the correspondence) -/
+def twinCheck (model : String) (c py : ZI.LookupTwin.Out) : String :=
+  let ok := fun (o : ZI.LookupTwin.Out) => shwOut o == model || (o == .obj && model.startsWith "res ")
+  if ok c && ok py then model else model ++ s!" TWINDIFF c={shwOut c} py={shwOut py}"
+
 partial def loop (h : IO.FS.Stream) (s : St) : IO Unit := do
   let line ← h.getLine
   if line.isEmpty then return ()
@@ -58,13 +75,19 @@ partial def loop (h : IO.FS.Stream) (s : St) : IO Unit := do
   | ["unsub", r, req, p, v] => IO.println "ok"; loop h (upd (unsubscribe FUEL w r.toNat! (opts req) (opt1 p) (val v)))
   | ["rebuild", r] => IO.println "ok"; loop h (upd (rebuild FUEL w r.toNat!))
   | ["lookup", r, req, p, name] =>
-      if badName name then IO.println "err ValueError"; loop h s else
+      let ts := twinState w r.toNat!
+      let tc := (ZI.LookupTwin.lookupC ts (nums req) p.toNat! (twinName name) false).2
+      let tp := (ZI.LookupTwin.lookupPy ts (nums req) p.toNat! (twinName name) false).2
+      if badName name then IO.println (twinCheck "err ValueError" tc tp); loop h s else
       let (w, a) := lookup w r.toNat! (nums req) p.toNat! name
-      IO.println (shwV a); loop h (upd w)
+      IO.println (twinCheck (shwV a) tc tp); loop h (upd w)
   | ["lookup1", r, req, p, name] =>
-      if badName name then IO.println "err ValueError"; loop h s else
+      let ts := twinState w r.toNat!
+      let tc := (ZI.LookupTwin.lookup1C ts (nums req).head! p.toNat! (twinName name) false).2
+      let tp := (ZI.LookupTwin.lookup1Py ts (nums req).head! p.toNat! (twinName name) false).2
+      if badName name then IO.println (twinCheck "err ValueError" tc tp); loop h s else
       let (w, a) := lookup w r.toNat! (nums req) p.toNat! name
-      IO.println (shwV a); loop h (upd w)
+      IO.println (twinCheck (shwV a) tc tp); loop h (upd w)
   | ["lookupAll", r, req, p] =>
       let (w, a) := lookupAll w r.toNat! (nums req) p.toNat!
       IO.println (" ".intercalate (sortS (a.map fun p => s!"{p.1}={p.2.ident}"))); loop h (upd w)
@@ -80,14 +103,19 @@ partial def loop (h : IO.FS.Stream) (s : St) : IO Unit := do
       let w := (allRegistrations x).foldl (fun w e => register FUEL w r2.toNat! e.1 (e.2.1.getD 0) e.2.2.1 e.2.2.2) w
       let w := (allSubscriptions x).foldl (fun w e => subscribe FUEL w r2.toNat! e.1 e.2.1 e.2.2) w
       IO.println "ok"; loop h (upd w)
-  | ["qadapter", r, os, p, name, _] =>       -- queryAdapter / adapter_hook / queryMultiAdapter on objects
-      if badName name then IO.println "err ValueError"; loop h s else
+  | ["qadapter", r, os, p, name, via] =>       -- queryAdapter / adapter_hook / queryMultiAdapter on objects
       let objs := nums os
+      let single := via != "m" && objs.length == 1
+      let ts := twinState w r.toNat!
+      let tc := (ZI.LookupTwin.adapterHookC ts (objs.map s.spec).head! p.toNat! (twinName name) true).2
+      let tp := (ZI.LookupTwin.adapterHookPy ts (objs.map s.spec).head! p.toNat! (twinName name) true).2
+      let chk := fun (m : String) => if single then twinCheck m tc tp else m
+      if badName name then IO.println (chk "err ValueError"); loop h s else
       let (w, a) := lookup w r.toNat! (objs.map s.spec) p.toNat! name
       let out := match a with
         | some v => if retNone v then "default" else s!"res {v.ident} {os}"
         | none => "default"
-      IO.println out; loop h (upd w)
+      IO.println (chk out); loop h (upd w)
   | ["subscribers", r, os, p] =>
       let objs := nums os
       let (w, a) := subscriptions w r.toNat! (objs.map s.spec) (opt1 p)
